@@ -29,6 +29,7 @@ import (
 	"strings"
 	"time"
 
+	"github.com/massnetorg/mass-core/logging"
 	"github.com/massnetorg/mass-core/massutil"
 	"github.com/massnetorg/mass-core/wire"
 	"github.com/syndtr/goleveldb/leveldb"
@@ -346,7 +347,8 @@ func (h *H) AddrsOfKeystore(id string) ([]*AddrInfo, error) {
 // num is the model's wallet number (the original's, for a twin).
 func (h *H) ImportMnemonic(num int, mnemonic, pass string, passID int) (*WInfo, error) {
 	ws, err := h.W.WM.ImportWalletWithMnemonic(&keystore.WalletParams{
-		Version: keystore.KeystoreVersion0, Mnemonic: mnemonic, PrivatePassphrase: []byte(pass)})
+		Version: keystore.KeystoreVersion0, Mnemonic: mnemonic, PrivatePassphrase: []byte(pass),
+		AddressGapLimit: h.W.Cfg.Wallet.Settings.AddressGapLimit}) // as api/wallet_service.go passes it
 	if err != nil {
 		h.emit("W import %d %d err 0", num, passID)
 		return nil, err
@@ -421,22 +423,27 @@ func RawScan(instanceDir string, id string, addrs []*AddrInfo) ([]string, error)
 			if bytes.Contains(k, n.b) {
 				where = "key"
 			} else if bytes.Contains(v, n.b) {
-				if n.raw && len(v) > 150 {
-					continue // serialized transaction (pending set): not keyed by the wallet
+				if n.raw && bytes.Contains(k[:minInt(len(k), 12)], []byte("_m_")) {
+					continue // bucket "m": serialized pending transactions, keyed by their own hash
 				}
 				where = "value"
 			}
 			if where == "" {
 				continue
 			}
+			// inner key = <depth>_<bucket path segments joined by _>_<key>; keep depth+1 segments
 			pfx := k
-			if i := bytes.IndexByte(k, '_'); i >= 0 {
-				// bucket paths are printable; keep up to two path segments
-				j := bytes.IndexByte(k[i+1:], '_')
-				if j >= 0 && j < 12 {
-					pfx = k[:i+1+j]
-				} else {
-					pfx = k[:i]
+			if len(k) > 2 && k[0] >= '1' && k[0] <= '9' && k[1] == '_' {
+				want := int(k[0]-'0') + 1
+				idx := 0
+				for i := 0; i < len(k); i++ {
+					if k[i] == '_' {
+						idx++
+						if idx == want {
+							pfx = k[:i]
+							break
+						}
+					}
 				}
 			}
 			if len(pfx) > 24 {
@@ -556,3 +563,83 @@ func (h *H) RetireWallet(wi *WInfo) {
 
 // AdoptWallet puts a wallet (with its model number already set) into the generator's list.
 func (h *H) AdoptWallet(wi *WInfo) { h.Wallets = append(h.Wallets, wi) }
+
+func minInt(a, b int) int {
+	if a < b {
+		return a
+	}
+	return b
+}
+
+// QuietLogs re-initialises mass-core's logger after sim.Init so that nothing is printed on stdout
+// (the history lines go there) while the wallet still logs at the given level into a scratch
+// directory (asyncRemove logs after resuming the handler; at level "info" that widens the window in
+// which the handler can take a queued block before the worker suspends it again). The directory is
+// returned; the caller removes it.
+func QuietLogs(level string) string {
+	dir, err := os.MkdirTemp(scratchRoot(), "vlog")
+	if err != nil {
+		dir = os.TempDir()
+	}
+	logging.Init(dir, "wallet", level, 1, true)
+	return dir
+}
+
+// BuildSign lets wallet wi build (AutoCreateRawTransaction, a third of its spendable funds to a
+// stranger) and sign (SignRawTx, its own passphrase) a transaction; nothing is broadcast and the
+// reservation marks are cleared. Answers ok | nofunds | use-err | create-err | decode-err | sign-err.
+func (h *H) BuildSign(wi *WInfo) string {
+	if _, err := h.W.WM.UseWallet(wi.ID); err != nil {
+		return "use-err"
+	}
+	wb, err := h.W.WM.WalletBalance(1, true)
+	if err != nil {
+		return "use-err"
+	}
+	spend := wb.Spendable.IntValue()
+	if spend < 3000000 {
+		return "nofunds"
+	}
+	var shb [32]byte
+	for i := range shb {
+		shb[i] = byte(7*i + 3)
+	}
+	sa, err := massutil.NewAddressWitnessScriptHash(shb[:], config.ChainParams)
+	if err != nil {
+		return "create-err"
+	}
+	amt, err := massutil.NewAmountFromInt(spend / 3)
+	if err != nil {
+		return "create-err"
+	}
+	hx, _, err := h.W.WM.AutoCreateRawTransaction(map[string]massutil.Amount{sa.EncodeAddress(): amt}, 0, massutil.ZeroAmount(), "", "", nil)
+	if err != nil {
+		if os.Getenv("VERIF_DUMP") != "" {
+			fmt.Fprintf(os.Stderr, "DUMP AutoCreateRawTransaction: %v (spendable %d)\n", err, spend)
+		}
+		return "create-err"
+	}
+	raw, err := hex.DecodeString(hx)
+	if err != nil {
+		return "decode-err"
+	}
+	var tx wire.MsgTx
+	if err := tx.SetBytes(raw, wire.Packet); err != nil {
+		return "decode-err"
+	}
+	defer h.W.WM.ClearUsedUTXOMark(&tx)
+	if _, err := h.W.WM.SignRawTx([]byte(wi.Pass), "ALL", &tx); err != nil {
+		return "sign-err"
+	}
+	return "ok"
+}
+
+// ForgetWallet takes a wallet out of the generator's list without keeping its addresses as payees.
+func (h *H) ForgetWallet(wi *WInfo) {
+	for i, x := range h.Wallets {
+		if x == wi {
+			h.Wallets = append(h.Wallets[:i:i], h.Wallets[i+1:]...)
+			return
+		}
+	}
+}
